@@ -126,112 +126,66 @@ fn k_digit_3() { let (d, val) = k_digit::<3>(); kani::cover!(d >= 1 && val <= 25
 #[kani::unwind(8)]
 fn k_digit_4() { let (d, val) = k_digit::<4>(); kani::cover!(d == 4 && val <= 255); kani::cover!(d >= 1 && val > 255); }
 
-// ---------------------------------------------------------------------------------------------------------------
-// Contract of AisParser::parse against the reassembly transition function (C05 / C06 / C17 / C02 gate placement),
-// as a Kani harness: fallback when Verus cannot decide the function, and a source of concrete counterexamples.
-// parse_nmea_sentence is replaced by a stub that returns ANY outcome its contract allows (any field values, a payload
-// of 0..=2 bytes, any checksum); the parser starts in ANY state with a buffer of 0..=2 bytes.  Bounded by those sizes.
-static mut K_LAST: Option<(bool, u8, u8, Option<u8>, [u8; 2], usize, u8, u8)> = None;   // ok, n, k, id, payload, plen, xor(raw), checksum
 
-fn stub_nmea<'a>(data: &'a [u8]) -> IResult<&'a [u8], (&'a [u8], AisSentence, u8)> {
-    if kani::any() {
-        unsafe { K_LAST = Some((false, 0, 0, None, [0; 2], 0, 0, 0)); }
-        return Err(nom::Err::Error(nom::error::Error::new(data, nom::error::ErrorKind::Tag)));
+// ---- line-level grammar on a fixed valid body with symbolic channel byte and symbolic checksum field -------------------
+/// nom's take_until searches with memchr::memmem::find, whose SIMD dispatch (cpuid inline asm) Kani cannot execute: replaced by a
+/// linear search for the one-byte needles this crate uses (memchr itself is trusted)
+fn stub_memmem_find(haystack: &[u8], needle: &[u8]) -> Option<usize> {
+    let mut i = 0;
+    while i < haystack.len() {
+        if haystack[i] == needle[0] { return Some(i); }
+        i += 1;
     }
-    let rawlen: usize = kani::any();
-    kani::assume(rawlen <= data.len() && rawlen <= 2);
-    let pl: [u8; 2] = kani::any();
-    let plen: usize = kani::any();
-    kani::assume(plen >= 1 && plen <= 2);
-    let mut payload = AisRawData::default();
-    payload.push(pl[0]);
-    if plen == 2 {
-        payload.push(pl[1]);
+    None
+}
+fn stub_memchr1(needle: u8, haystack: &[u8]) -> Option<usize> {
+    let mut i = 0;
+    while i < haystack.len() {
+        if haystack[i] == needle { return Some(i); }
+        i += 1;
     }
-    let n: u8 = kani::any();
-    let k: u8 = kani::any();
-    let id: Option<u8> = kani::any();
-    let ck: u8 = kani::any();
-    let mut x = 0u8;
-    if rawlen >= 1 { x ^= data[0]; }
-    if rawlen >= 2 { x ^= data[1]; }
-    unsafe { K_LAST = Some((true, n, k, id, pl, plen, x, ck)); }
-    let s = AisSentence {
-        talker_id: TalkerId::AI, report_type: AisReportType::VDM, num_fragments: n, fragment_number: k, message_id: id, channel: None,
-        data: payload, fill_bit_count: 0, message_type: 0, message: None,
-    };
-    Ok((&data[data.len()..], (&data[..rawlen], s, ck)))
+    None
+}
+fn hexv(c: u8) -> Option<u32> {
+    if c >= b'0' && c <= b'9' { Some((c - b'0') as u32) } else if c >= b'a' && c <= b'f' { Some((c - b'a' + 10) as u32) }
+    else if c >= b'A' && c <= b'F' { Some((c - b'A' + 10) as u32) } else { None }
 }
 
+/// C07 / C08 / C02 (bounded stand-in): `!AIVDM,1,1,,<c>,1,0*<h0><h1><h2>` with every channel byte c (not ',' / '*') and every
+/// 3-byte checksum field: accepted exactly when the field starts with a hex digit and the hex run's value is <= 0xFF; the
+/// transmitted checksum is that value; the channel is the byte as a char
 #[kani::proof]
-#[kani::unwind(6)]
-#[kani::stub(parse_nmea_sentence, stub_nmea)]
-#[kani::stub(std::fmt::format, stub_fmt_s)]
-fn k_parse_step() {
-    // any parser state
-    let pre_id: Option<u8> = kani::any();
-    let pre_num: u8 = kani::any();
-    let pre_buf: [u8; 2] = kani::any();
-    let pre_len: usize = kani::any();
-    kani::assume(pre_len <= 2);
-    let mut p = AisParser { message_id: pre_id, fragment_number: pre_num, data: AisRawData::default() };
-    if pre_len >= 1 { p.data.push(pre_buf[0]); }
-    if pre_len >= 2 { p.data.push(pre_buf[1]); }
-    let line: [u8; 2] = kani::any();
-    let r = p.parse(&line, false);
-    let (ok, n, k, id, pl, plen, x, ck) = unsafe { K_LAST.unwrap() };
-    // ---- the transition function of the property statements
-    let same_state = p.message_id == pre_id && p.fragment_number == pre_num && p.data.len() == pre_len
-        && (pre_len < 1 || p.data[0] == pre_buf[0]) && (pre_len < 2 || p.data[1] == pre_buf[1]);
-    if !ok {
-        assert!(r.is_err() && same_state);                                   // malformed line: rejected, no trace
-    } else if x != ck {
-        assert!(r == Err(Error::Checksum { expected: ck, found: x }));       // checksum gate before anything else
-        assert!(same_state);
-    } else if k < n {
-        if k == 1 {
-            // opens a group, dropping whatever was open
-            assert!(matches!(r, Ok(AisFragments::Incomplete(_))));
-            assert!(p.message_id == id && p.fragment_number == 1 && p.data.len() == plen && p.data[0] == pl[0] && (plen < 2 || p.data[1] == pl[1]));
-        } else if pre_id == id && k as u16 == pre_num as u16 + 1 {
-            assert!(matches!(r, Ok(AisFragments::Incomplete(_))));
-            assert!(p.message_id == pre_id && p.fragment_number == k && p.data.len() == pre_len + plen);
-            assert!((pre_len < 1 || p.data[0] == pre_buf[0]) && (pre_len < 2 || p.data[1] == pre_buf[1]) && p.data[pre_len] == pl[0]);
-        } else {
-            assert!(r.is_err() && same_state);                               // sequencing rejection leaves no trace
+#[kani::unwind(24)]
+#[kani::stub(memchr::memmem::find, stub_memmem_find)]
+#[kani::stub(memchr::memchr::memchr, stub_memchr1)]
+fn k_nmea_fields() {
+    let c: u8 = kani::any();
+    let h: [u8; 3] = kani::any();
+    kani::assume(c != b',' && c != b'*');
+    let line: [u8; 21] = [b'!', b'A', b'I', b'V', b'D', b'M', b',', b'1', b',', b'1', b',', b',', c, b',', b'1', b',', b'0', b'*', h[0], h[1], h[2]];
+    let r = parse_nmea_sentence(&line);
+    // reference: value of the leading hex run
+    let mut val: u32 = 0;
+    let mut digits = 0;
+    let mut stop = false;
+    let mut i = 0;
+    while i < 3 {
+        match hexv(h[i]) {
+            Some(v) if !stop => { val = val * 16 + v; digits += 1; }
+            _ => { stop = true; }
         }
-        if let Ok(AisFragments::Incomplete(s)) = &r {
-            assert!(s.num_fragments == n && s.fragment_number == k && s.message_id == id && s.data.len() == plen && s.data[0] == pl[0]);
-        }
-    } else if n != 1 {
-        if pre_id == id && k as u16 == pre_num as u16 + 1 {
-            // last fragment: exact concatenation delivered, group closed
-            match &r {
-                Ok(AisFragments::Complete(s)) => {
-                    assert!(s.data.len() == pre_len + plen);
-                    assert!((pre_len < 1 || s.data[0] == pre_buf[0]) && (pre_len < 2 || s.data[1] == pre_buf[1]) && s.data[pre_len] == pl[0]);
-                    assert!(plen < 2 || s.data[pre_len + 1] == pl[1]);
-                    assert!(s.num_fragments == n && s.fragment_number == k && s.message_id == id);
-                }
-                _ => assert!(false),
-            }
-            assert!(p.fragment_number == 0 && p.data.len() == 0);
-        } else {
-            assert!(r.is_err() && same_state);
-        }
-    } else {
-        // unfragmented: delivered as is, no trace
-        match &r {
-            Ok(AisFragments::Complete(s)) => assert!(s.data.len() == plen && s.data[0] == pl[0] && s.num_fragments == 1 && s.fragment_number == k),
-            _ => assert!(false),
-        }
-        assert!(same_state);
+        i += 1;
     }
-    kani::cover!(ok && x == ck && k < n && k == 1);
-    kani::cover!(ok && x == ck && k >= n && n != 1 && r.is_ok());
-    kani::cover!(ok && x != ck);
-}
-
-fn stub_fmt_s(_a: core::fmt::Arguments<'_>) -> crate::lib::std::string::String {
-    crate::lib::std::string::String::new()
+    if digits >= 1 && val <= 0xff {
+        let (_rest, (raw, s, ck)) = r.unwrap();
+        assert!(ck as u32 == val);
+        assert!(raw.len() == 16);
+        assert!(s.channel == Some(c as char));
+        assert!(s.num_fragments == 1 && s.fragment_number == 1 && s.message_id.is_none() && s.fill_bit_count == 0 && s.data.len() == 1 && s.data[0] == b'1');
+    } else {
+        assert!(r.is_err());
+    }
+    kani::cover!(digits == 3 && val > 0xff);
+    kani::cover!(digits == 3 && val <= 0xff);
+    kani::cover!(c >= 0x80);
 }
